@@ -48,12 +48,19 @@ package polling
 //@   nooverflow
 
 //@ func (*Subscriber).poll
-//@   property C20
+//@   property C20 C16
 //@   harness harness/poll_progress_test.go
 //@   requires storeNotBehind(s.poller) && isTableFor(s.poller.PowerTable, s.poller.NextInstance)
 //@   modifies auto
 //@   maypanic
 //@   ensures[progress_is_instances_advanced] _progress == s.poller.NextInstance - old(s.poller.NextInstance)
+//@   at loopback 1
+//@     before[an_illegal_response_marks_the_peer_invalid] res.Status == 3 ==> called(recordInvalid, 1)
+//@     before[a_failed_request_is_recorded_as_a_failure] res.Status == 2 ==> called(recordFailure, 1)
+//@   at recordInvalid 1
+//@     before[only_an_illegal_response_marks_a_peer_invalid] res.Status == 3
+//@   at recordFailure 1
+//@     before[only_a_failed_request_is_recorded_as_a_failure] res.Status == 2
 //@   loop 1
 //@     invariant s.poller == old(s.poller) && start == old(s.poller.NextInstance) && s.poller.NextInstance >= start && storeNotBehind(s.poller) && isTableFor(s.poller.PowerTable, s.poller.NextInstance)
 
@@ -108,3 +115,77 @@ package polling
 //@     before[the_table_of_the_instance_after_the_latest_certificate_is_loaded] arg(0) == store && arg(2) == nextInstance && ite(res(Latest, 1) == nil, nextInstance == 0, res(Latest, 1).GPBFTInstance < 18446744073709551615 ==> nextInstance == res(Latest, 1).GPBFTInstance + 1) && argOf(Latest, 1, 0) == store
 //@   at return 2
 //@     before[the_poller_starts_at_that_instance_with_that_table] arg(1) == nil && arg(0).NextInstance == nextInstance && arg(0).PowerTable == res(GetPowerTable, 1, 0) && res(GetPowerTable, 1, 1) == nil && arg(0).Store == store && arg(0).SignatureVerifier == verifier
+
+// ---- C16: "classifies the peer accordingly" — what each classification does to the peer's record ----
+// An invalid peer is marked evil (the lowest state: suggestPeers never picks it again and reactivate leaves it alone).
+//@ func (*peerRecord).recordInvalid
+//@   property C16
+//@   modifies auto
+//@   ensures[an_invalid_peer_is_evil] r.state == -1
+//@   ensures r.hits == old(r.hits) && r.misses == old(r.misses)
+
+// A failed request counts as a miss in the sliding window, deactivates an active peer, never raises a peer's state and
+// never redeems an evil one; the back-off doubles per sequential failure up to 2^maxBackoffExponent rounds.
+//@ func (*peerRecord).recordFailure
+//@   property C16
+//@   modifies auto
+//@   ensures[a_failure_deactivates_an_active_peer] old(r.state) == 2 ==> r.state == 1
+//@   ensures[a_failure_never_redeems_a_peer] old(r.state) != 2 ==> r.state == old(r.state)
+//@   ensures[failures_are_counted] old(r.sequentialFailures) < 9223372036854775807 ==> r.sequentialFailures == old(r.sequentialFailures) + 1
+//@   ensures[a_failure_is_a_miss] (old(r.misses) < 3 ==> r.misses == old(r.misses) + 1 && r.hits == old(r.hits)) && (old(r.misses) >= 3 ==> r.misses == old(r.misses) && (old(r.hits) > 0 ==> r.hits == old(r.hits) - 1) && (old(r.hits) <= 0 ==> r.hits == old(r.hits)))
+
+// Hits and misses move the sliding windows only: they never change a peer's state (an evil peer stays evil).
+//@ func (*peerRecord).recordHit
+//@   property C16
+//@   modifies auto
+//@   ensures[a_hit_never_changes_the_state] r.state == old(r.state)
+//@   ensures[a_hit_clears_the_failure_count] r.sequentialFailures == 0
+//@   ensures[a_hit_is_counted] (old(r.hits) < 3 ==> r.hits == old(r.hits) + 1 && r.misses == old(r.misses)) && (old(r.hits) >= 3 ==> r.hits == old(r.hits) && (old(r.misses) > 0 ==> r.misses == old(r.misses) - 1) && (old(r.misses) <= 0 ==> r.misses == old(r.misses)))
+
+//@ func (*peerRecord).recordMiss
+//@   property C16
+//@   modifies auto
+//@   ensures[a_miss_never_changes_the_state] r.state == old(r.state)
+//@   ensures[a_miss_clears_the_failure_count] r.sequentialFailures == 0
+//@   ensures[a_miss_is_counted] (old(r.misses) < 3 ==> r.misses == old(r.misses) + 1 && r.hits == old(r.hits)) && (old(r.misses) >= 3 ==> r.misses == old(r.misses) && (old(r.hits) > 0 ==> r.hits == old(r.hits) - 1) && (old(r.hits) <= 0 ==> r.hits == old(r.hits)))
+
+// The tracker applies each classification to the record of the peer it was given.
+//@ func (*peerTracker).recordInvalid
+//@   property C16
+//@   modifies auto
+//@   inlined
+//@   at recordInvalid 1
+//@     before[applied_to_the_record_of_the_given_peer] arg(0) == res(getOrCreate, 1) && argOf(getOrCreate, 1, 1) == p
+
+//@ func (*peerTracker).recordMiss
+//@   property C16
+//@   modifies auto
+//@   inlined
+//@   at recordMiss 1
+//@     before[applied_to_the_record_of_the_given_peer] arg(0) == res(getOrCreate, 1) && argOf(getOrCreate, 1, 1) == p
+
+//@ func (*peerTracker).recordHit
+//@   property C16
+//@   modifies auto
+//@   inlined
+//@   at recordHit 1
+//@     before[applied_to_the_record_of_the_given_peer] arg(0) == res(getOrCreate, 1) && argOf(getOrCreate, 1, 1) == p
+
+//@ func (*peerTracker).recordFailure
+//@   property C16
+//@   modifies auto
+//@   maypanic
+//@   at recordFailure 1
+//@     before[applied_to_the_record_of_the_given_peer] arg(0) == res(getOrCreate, 1) && argOf(getOrCreate, 1, 1) == p
+//@   at Push 1
+//@     before[backed_off_peer] r.peer == p
+//@     before[backed_off_from_the_current_round] t.currentRound >= 0 && t.currentRound < 4611686018427387904 && res(recordFailure, 1) >= 0 && res(recordFailure, 1) <= 256 ==> r.delayUntil == t.currentRound + res(recordFailure, 1)
+//@     before[pushed] arg(1) == r
+
+// The record a classification is applied to is the one kept under the peer's id (created on first use).
+//@ func (*peerTracker).getOrCreate
+//@   property C16
+//@   modifies auto
+//@   maypanic
+//@   ensures[the_record_kept_under_the_peers_id] has(t.peers, p) && t.peers[p] == result
+//@   ensures[an_existing_record_is_reused] old(has(t.peers, p)) ==> result == old(t.peers[p])
